@@ -413,7 +413,7 @@ extend_vector			(void **		vector,
 	if (unlikely (new_capacity > (max_capacity / 2))) {
 		new_capacity = max_capacity;
 	} else {
-		new_capacity = MIN (min_capacity, new_capacity * 2);
+		new_capacity = MAX (min_capacity, new_capacity * 2);
 	}
 
 	new_vec = vbi_realloc (*vector, new_capacity * element_size);
